@@ -71,7 +71,28 @@ type scopeSpec struct {
 	Mail   int // 0 absent, 1 rfc822Name, 2 SmtpUTF8Mailbox otherName, 3 empty rfc822Name
 }
 
-var scopePolicies = append(append([][]int{}, gen.ScopePolicyOIDs...), gen.OtherPolicyOIDs[0], gen.OtherPolicyOIDs[1])
+// scopePolicies: the policy *sets* of the matrix - each scope OID alone, anyPolicy, an unrelated OID; the
+// near misses of each scope OID (a child arc, the parent arc, last arc 0, last arc + 3), which no scope
+// predicate may take for the OID itself; and each scope OID next to an unrelated policy, in both orders.
+var scopePolicies = func() [][][]int {
+	var out [][][]int
+	for _, o := range gen.ScopePolicyOIDs {
+		out = append(out, [][]int{o})
+	}
+	out = append(out, [][]int{gen.OtherPolicyOIDs[0]}, [][]int{gen.OtherPolicyOIDs[1]})
+	cp := func(o []int, extra ...int) []int { return append(append([]int{}, o...), extra...) }
+	for _, o := range gen.ScopePolicyOIDs {
+		zero := cp(o)
+		zero[len(zero)-1] = 0
+		far := cp(o)
+		far[len(far)-1] += 3
+		out = append(out, [][]int{cp(o, 1)}, [][]int{cp(o[:len(o)-1])}, [][]int{zero}, [][]int{far})
+	}
+	for _, o := range gen.ScopePolicyOIDs {
+		out = append(out, [][]int{o, gen.OtherPolicyOIDs[1]}, [][]int{gen.OtherPolicyOIDs[1], o})
+	}
+	return out
+}()
 
 func applyScope(base gen.Obj, s scopeSpec) ([]byte, bool) {
 	v, err := gen.ViewCert(base.DER)
@@ -86,7 +107,7 @@ func applyScope(base gen.Obj, s scopeSpec) ([]byte, bool) {
 	if s.Policy < 0 {
 		v.SetPolicies()
 	} else {
-		v.SetPolicies(scopePolicies[s.Policy])
+		v.SetPolicies(scopePolicies[s.Policy]...)
 	}
 	gns := []*dt.Node{gen.GNDNS([]byte("scope.example.com"))}
 	switch s.Mail {
@@ -227,7 +248,7 @@ func TestC04(t *testing.T) {
 			}
 		}
 	}
-	rec.Exhaustive("single-feature scope matrix (EKU x policy x mail-SAN on 3 bases)", true)
+	rec.Exhaustive("single-feature scope matrix (EKU x policy set incl. near-miss OIDs and two-policy sets x mail-SAN on 3 bases)", true)
 	// (b) corpus as is
 	co := gen.LoadCorpus()
 	idx := 0
